@@ -35,6 +35,7 @@ type c02Fixture struct {
 	ws    [3]wd
 	trees map[string]*wtree // "R12", "R123"; "Rbad" has no tree
 	bad   [32]byte
+	t2    *wtree // bridge 2's own tree: its single withdrawal is paid before the exploration starts
 }
 
 func newC02Fixture() *c02Fixture {
@@ -46,6 +47,8 @@ func newC02Fixture() *c02Fixture {
 	fx.trees["R12"] = mkTree("R12", fx.ws[:2], 0)
 	fx.trees["R123"] = mkTree("R123", fx.ws[:3], 0)
 	fx.bad = ref.Sum256([]byte("bad root"))
+	other := world.Addr("challenger2").String() // an account the model of bridge 1 does not watch
+	fx.t2 = mkTree("c02-b2", []wd{{Bridge: 2, Seq: 1, From: "l2user", To: other, Denom: "uxx", Amount: 1}}, 0)
 	return fx
 }
 
@@ -71,8 +74,8 @@ func (c02Sys) Root() *c02State {
 		panic(res.Err)
 	}
 	// bridge 2 has a life of its own: an output, final by now, and one paid withdrawal
-	other := world.Addr("challenger2").String() // an account the model of bridge 1 does not watch
-	t2 := mkTree("c02-b2", []wd{{Bridge: 2, Seq: 1, From: "l2user", To: other, Denom: "uxx", Amount: 1}}, 0)
+	fx := newC02Fixture()
+	t2 := fx.t2
 	ctx := w.Ctx
 	for _, m := range []sdk.Msg{
 		ophosttypes.NewMsgInitiateTokenDeposit(world.Addr("alice").String(), 2, "l2addr", world.Coin("uxx", 5), nil),
@@ -86,7 +89,7 @@ func (c02Sys) Root() *c02State {
 	if res := w.Deliver(ctx, claimMsg(t2.Ws[0], t2.Tree.Proof(0), 1, "bob", t2.Version, t2.StorageRoot[:], t2.BlockHash)); !res.OK() {
 		panic(res.Err)
 	}
-	return &c02State{ctx: ctx, w: w, fx: newC02Fixture()}
+	return &c02State{ctx: ctx, w: w, fx: fx}
 }
 
 func (c02Sys) Digest(s *c02State) [32]byte { return s.w.Digest(s.ctx) }
@@ -226,6 +229,20 @@ func (c02Sys) Step(s *c02State, l engine.Letter) (*c02State, string, *engine.Vio
 }
 
 func (c02Sys) Check(s *c02State) *engine.Violation {
+	// bridge 2's withdrawal was paid before the exploration started: it stays claimed, whatever happens
+	// on bridge 1 (and through every restart), and can never be paid again
+	{
+		t2 := s.fx.t2
+		h := t2.Ws[0].leaf()
+		r, err := s.w.Q.Claimed(s.ctx, &ophosttypes.QueryClaimedRequest{BridgeId: 2, WithdrawalHash: h[:]})
+		if err != nil || !r.Claimed {
+			return viol("claimed-query-iff-paid", "Claimed(bridge 2, its paid withdrawal) = %v (err=%v)", r, err)
+		}
+		bctx, _ := s.ctx.CacheContext()
+		if res := s.w.Deliver(bctx, t2.claim(0, 1, "bob")); res.OK() {
+			return tagged(viol("withdrawal-paid-at-most-once", "bridge 2's withdrawal, paid before the exploration started, was paid again"), "kind", "double-pay")
+		}
+	}
 	sum := int64(0)
 	for i, w := range s.fx.ws {
 		h := w.leaf()
